@@ -99,9 +99,10 @@ def replay_record(rec):
     """-> dict(status, ...) ; status in ok | violation | unspecified | drift"""
     p = rec["p"]
     r = A.render(p, rec["_seed"])
-    kind, obs = A.observe(r["text"])
+    kind, obs = A.observe(r["text"], r["files"])
     ideal, mach = rec["ideal"], rec["mach"]
-    out = {"text": r["text"], "observed": kind, "detail": obs if kind == "reject" else None}
+    shown = r["text"] + "".join(f"--- file {fn}:\n{c}" for fn, c in r["files"].items())
+    out = {"text": shown, "observed": kind, "detail": obs if kind == "reject" else None}
     drift = mach in ("accept", "reject") and kind != mach
     if ideal == "unspec":
         out["status"] = "unspecified"
@@ -119,9 +120,10 @@ def replay_record(rec):
     if kind == "accept":
         bad = A.failing(rec["obl"], obs, r["path"])
         if not bad and p["by"]["t"] != "nil":
-            byobl = [{"o": "value", "lit": p["by"]}] if p["by"]["t"] != "num" else \
-                    [{"o": "value", "b": _base(p["by"]), "k": p["by"]["k"], "unit": p["nu"]}]
-            bad = ["bystander: " + b for b in A.failing(byobl, obs, r["bypath"])]
+            bad = ["bystander: " + b for b in A.failing(_own_value(p, p["by"]), obs, r["bypath"])]
+        if not bad and r["origpath"]:
+            # the original of a local import stays in the environment with the value of its definition
+            bad = ["original: " + b for b in A.failing(_own_value(p, p["def"]), obs, r["origpath"])]
         if bad:
             out["status"] = "violation"
             out["failure"] = "returned_data"
@@ -133,9 +135,14 @@ def replay_record(rec):
     return out
 
 
-def _base(l):
-    # the bystander is always written in the node's own unit: its base is its mantissa
-    return l["n"]
+def _own_value(p, l):
+    """Obligation 'the node holds the literal l' for a literal written in the node's own unit (bystander,
+    original of an import): its base in node units is its mantissa."""
+    if l["t"] == "num":
+        return [{"o": "value", "b": l["n"], "k": l["k"], "unit": p["nu"]}]
+    if l["t"] == "arr":
+        return [{"o": "shape", "shape": l["shape"]}]
+    return [{"o": "value", "lit": l}]
 
 
 def run(replay=None):
